@@ -12,3 +12,12 @@ pub use gob::decode_gob;
 pub use macroblock::decode_macroblock;
 pub use picture::decode_picture;
 pub use reader::H263Reader;
+
+#[cfg(feature = "verif")]
+pub mod verif {
+    //! Read-only views of the code tables for the external verification harness.
+    pub use super::block::verif::tcoef_table;
+    pub use super::macroblock::verif::{cbpy_table, mcbpc_i_table, mcbpc_p_table, mvd_table};
+    pub use super::macroblock::BlockPatternEntry;
+    pub use super::vlc::{Entry, Table};
+}
